@@ -524,6 +524,7 @@ func (self *AofFile) Flush() error {
 		}
 		self.windex = 0
 		self.dirtied = true
+		verifPoint(VP_AOF_FLUSH_MID)
 	}
 
 	if self.dataFile != nil && self.dwindex > 0 {
@@ -1917,6 +1918,7 @@ func (self *Aof) RewriteAofFile(startReWrite bool) error {
 			self.slock.Log().Errorf("Aof close file %s.%d error %v", "append.aof", self.aofFileIndex, err)
 		}
 		self.aofFile = nil
+		verifPoint(VP_REWRITE_FILE_CLOSED)
 	}
 
 	aofFileIndex := self.aofFileIndex + 1
@@ -1933,6 +1935,7 @@ func (self *Aof) RewriteAofFile(startReWrite bool) error {
 	self.aofFileIndex = aofFileIndex
 	self.aofFileOffset = 0
 	self.slock.Log().Infof("Aof create current file %s.%d", "append.aof", aofFileIndex)
+	verifPoint(VP_REWRITE_FILE_OPENED)
 
 	if startReWrite {
 		go self.rewriteAofFiles()
@@ -2030,6 +2033,7 @@ func (self *Aof) loadRewriteAofFiles(aofFilenames []string) (*AofFile, []*AofFil
 		self.slock.Log().Infof("Aof open current file rewrite.aof.tmp error %v", err)
 		return nil, nil, err
 	}
+	verifPoint(VP_REWRITE_TMP_CREATED)
 
 	lockCommand := &protocol.LockCommand{}
 	aofFiles := make([]*AofFile, 0)
@@ -2085,6 +2089,7 @@ func (self *Aof) loadRewriteAofFiles(aofFilenames []string) (*AofFile, []*AofFil
 	if err != nil {
 		self.slock.Log().Errorf("Aof rewrite close file error %v", err)
 	}
+	verifPoint(VP_REWRITE_TMP_CLOSED)
 	return rewriteAofFile, aofFiles, lerr
 }
 
@@ -2095,17 +2100,21 @@ func (self *Aof) clearRewriteAofFiles(aofFilenames []string) {
 			self.slock.Log().Errorf("Aof rewrite remove file error %s %v", aofFilename, err)
 			continue
 		}
+		verifPoint(VP_REWRITE_REMOVED)
 		_ = os.Remove(filepath.Join(self.dataDir, fmt.Sprintf("%s.%s", aofFilename, "dat")))
+		verifPoint(VP_REWRITE_REMOVED_DAT)
 		self.slock.Log().Infof("Aof rewrite remove file %s", aofFilename)
 	}
 	err := os.Rename(filepath.Join(self.dataDir, "rewrite.aof.tmp"), filepath.Join(self.dataDir, "rewrite.aof"))
 	if err != nil {
 		self.slock.Log().Errorf("Aof rewrite rename rewrite.aof.tmp to rewrite.aof error %v", err)
 	}
+	verifPoint(VP_REWRITE_RENAMED)
 	err = os.Rename(filepath.Join(self.dataDir, "rewrite.aof.tmp.dat"), filepath.Join(self.dataDir, "rewrite.aof.dat"))
 	if err != nil {
 		self.slock.Log().Errorf("Aof rewrite rename rewrite.aof.tmp.dat to rewrite.aof.dat error %v", err)
 	}
+	verifPoint(VP_REWRITE_RENAMED_DAT)
 }
 
 func (self *Aof) clearAofFiles() error {
